@@ -5,6 +5,7 @@ From Okv Require Import Base.Maps Base.Dec Model.Amount Model.Book Model.Query M
      Model.PriceDb Model.PriceSpec Model.Convert
      Proofs.MapsSort Proofs.RenderProofs Proofs.OrderMaps Proofs.OrderAmount Proofs.OrderBook Proofs.OrderReports
      Proofs.PriceTable Proofs.OrderPrice Proofs.OrderConvert.
+From Okv Require Import Model.CanonState Proofs.OrderKeyed.
 From Okv Require Model.ImpConfig Model.ImpExtract Model.OrderImpSpec Proofs.OrderImport.
 Import ListNotations.
 
@@ -326,6 +327,20 @@ Theorem C13_convert_in_key_order_deterministic : forall fuel choose recs,
      convert_accounts fuel choose recs target now (canon_balance b') acc).
 Proof. exact convert_sorted_deterministic. Qed.
 Print Assumptions C13_convert_in_key_order_deterministic.
+
+(* the whole of `balance -X T [--historical] [--start/--end]` as the code walks it since 170c38c and
+   0b7772d (Model/CanonState.v balance_query_keyed: stored postings in file order, the accounts of
+   the balance that is converted - stored, or re-folded for a date range - by name, every amount by
+   commodity): for states that differ only in the iteration order of their maps the outcome is the
+   same printed report or the SAME error, i.e. the missing rate that is named (amount, commodity,
+   target, date) does not depend on any iteration order.  The C13 correspondence compares what a
+   failing `okane balance -X` names with this function. *)
+Theorem C13_balance_keyed_deterministic : forall fuel choose recs s s' cv st en,
+  st_equiv s s' ->
+  conv_printed (balance_query_keyed fuel choose recs s cv st en) =
+  conv_printed (balance_query_keyed fuel choose recs s' cv st en).
+Proof. exact balance_query_keyed_deterministic. Qed.
+Print Assumptions C13_balance_keyed_deterministic.
 
 (* (5) import rules.  The entries of a FieldMatcher (a HashMap from field to pattern, so the fields
    are distinct) are applied in list order, each seeing the fragment left by the previous ones.  For
